@@ -38,11 +38,22 @@ SchemaStructure(n, pos) ==
   ELSE And3({Structure(NodeKind(n), pos, n.rules)}
             \cup (IF n.t = "obj" THEN {SchemaStructure(n.props[i].n, "prop") : i \in DOMAIN n.props} ELSE {})
             \cup (IF n.t = "arr" THEN {SchemaStructure(n.items[i], "elem") : i \in DOMAIN n.items} ELSE {}))
+\* a schema whose own example is spelled out in it: no type shortcut values, no key shortcuts, no inherited properties
+RECURSIVE Exemplar(_)
+Exemplar(n) ==
+  /\ n.t # "ref" /\ ~HasRule(n, "allOf")
+  /\ CASE n.t = "arr" -> \A i \in DOMAIN n.items : Exemplar(n.items[i])
+       [] n.t = "obj" -> \A i \in DOMAIN n.props : ~n.props[i].sc /\ Exemplar(n.props[i].n)
+       [] OTHER -> TRUE
+\* every added type is a plain one (it names no other type, so there is no cycle to decide) that is sound by itself
+TypesSound(e) ==
+  \A i \in DOMAIN e.env.types : LET t == e.env.types[i].n IN
+     IsPlain(t) /\ SchemaStructure(t, "root") = "accept" /\ Verdict(e.env, t, ExampleOf(t), e.opt) = "accept"
 CheckProblem(e) ==
   LET st == SchemaStructure(e.schema, "root")
-      ex == IF IsPlain(e.schema) THEN Verdict(e.env, e.schema, ExampleOf(e.schema), e.opt) ELSE "unspec" IN
+      ex == IF Exemplar(e.schema) THEN Verdict(e.env, e.schema, ExampleOf(e.schema), e.opt) ELSE "unspec" IN
   IF e.ok THEN (IF st = "reject" THEN "check-accepts-a-rule-misuse" ELSE IF ex = "reject" THEN "check-accepts-a-violating-example" ELSE "ok")
-  ELSE IF st = "accept" /\ ex = "accept" /\ e.env.types = <<>> THEN "check-rejects-a-sound-schema" ELSE "ok"
+  ELSE IF st = "accept" /\ ex = "accept" /\ TypesSound(e) THEN "check-rejects-a-sound-schema" ELSE "ok"
 Problem(e) ==
   CASE e.op = "check" -> CheckProblem(e)
     [] e.op = "validate" ->
